@@ -4,6 +4,7 @@ import A2lVerif.Driver.Encoding
 import A2lVerif.Driver.Sort
 import A2lVerif.Driver.Tree
 import A2lVerif.Driver.Lex
+import A2lVerif.Driver.Graph
 /-! `a2lmodel`: one request per line on stdin, one canonical answer per line on stdout. -/
 open A2l
 
@@ -13,6 +14,8 @@ def dispatch (line : String) : String :=
   | "lim" :: args => Lim.handle args
   | "a2l" :: args => Tree.handle args
   | "lex" :: args => Lex.handle args
+  | "chk" :: args => Gr.handleChk false args
+  | "chkset" :: args => Gr.handleChk true args
   | "srt" :: args => Srt.handle args
   | "dec" :: args => Enc.handle "dec" args
   | "load" :: args => Enc.handle "load" args
